@@ -1,30 +1,33 @@
 // Package c13: concurrent use of a shared loader hierarchy under a deterministic scheduler (property C13).
 //
-//   C13 sched (tree NODE*) (threads (th STEP*) (th STEP*) …) (sched T*)
+//	C13 sched (tree NODE*) (threads (th STEP*) (th STEP*) …) (sched T*)
 //
 // NODE / STEP as in harness/c12 (load, def, add, has, get, disc).  Every thread is a goroutine executing its steps in
 // order against ONE shared world of real loaders; the only places where a goroutine can be preempted are the yield points
-//   "op"                  (harness) before each step,
-//   "get.hold"            (harness) inside `get`: between GetEntry and the read of the entry's Value(),
-//   "parented.loadentry"  (/repo, verifhook) parentedLoader.LoadEntry, after the parent's answer, before the own lookup,
-//   "load.miss-window"    (/repo, verifhook) load(), after LoadEntry answered nil, before the placeholder SetEntry,
-//   "parented.discover"   (/repo, verifhook) parentedLoader.Discover, after the parent's list, before the own iteration.
+//
+//	"op"                  (harness) before each step,
+//	"get.hold"            (harness) inside `get`: between GetEntry and the read of the entry's Value(),
+//	"parented.loadentry"  (/repo, verifhook) parentedLoader.LoadEntry, after the parent's answer, before the own lookup,
+//	"load.miss-window"    (/repo, verifhook) load(), after LoadEntry answered nil, before the placeholder SetEntry,
+//	"parented.discover"   (/repo, verifhook) parentedLoader.Discover, after the parent's list, before the own iteration.
+//
 // A schedule is a list of thread ids: each entry releases that thread until its next yield point (an entry naming a thread
 // that has finished, or that does not exist, is skipped); after the list the remaining threads run to completion in id order.
 //
 // Output: `0:[ans ; ans] 1:[ans] | <final own contents of every loader as in C12>`.
 //
-//   C13 lockrace   the model side answers from the lock-set table regenerated from loader/*.go: `none`, or an access site
-//                  that breaks the lock discipline with a conflicting site (the implementation side answers `none`)
+//	C13 lockrace   the model side answers from the lock-set table regenerated from loader/*.go: `none`, or an access site
+//	               that breaks the lock discipline with a conflicting site (the implementation side answers `none`)
 //
 // Direct predicate (on the implementation only):
-//   crash             an operation ended in a runtime fault
-//   entry-mutated     an entry handed out by GetEntry changed its Value() while the reader held it
-//   disagree          a lookup answered a value that is not the (write-once) binding of any loader on its chain
-//   not-linearizable  no sequential order of the same operations (respecting each thread's program order), run against
-//                     the C12 reference map, explains all answers and the final bindings;
-//                     `not-linearizable-ancestor-gains` when every unexplainable answer is a load/discover through a
-//                     loader one of whose proper ancestors is given a definition (of that name) by another thread.
+//
+//	crash             an operation ended in a runtime fault
+//	entry-mutated     an entry handed out by GetEntry changed its Value() while the reader held it
+//	disagree          a lookup answered a value that is not the (write-once) binding of any loader on its chain
+//	not-linearizable  no sequential order of the same operations (respecting each thread's program order), run against
+//	                  the C12 reference map, explains all answers and the final bindings;
+//	                  `not-linearizable-ancestor-gains` when every unexplainable answer is a load/discover through a
+//	                  loader one of whose proper ancestors is given a definition (of that name) by another thread.
 package c13
 
 import (
